@@ -80,7 +80,7 @@ prop("C05", "nitrocheck",
 
 prop("C06", "nitrocheck",
      [dict(name="TestC06", quick=400, thorough=5000, steps=50),
-      dict(name="TestC06Conc", quick=300, thorough=4000, env={"GOMAXPROCS": "2"})],
+      dict(name="TestC06Conc", pkg="conccheck", quick=300, thorough=4000, env={"GOMAXPROCS": "2"})],
      rule="rapid state machine weighted to deletes across epochs (single and bulk), snapshots closed in drawn (non-FIFO) order, GC; strict mode: after every Close "
           "that retires a snapshot and after every GC() the harness waits (bounded) for the collection workers and then requires node_count == the epoch model's "
           "physical count (#live + #versions whose deleting epoch's snapshot chain is not fully closed), soft_deletes == 0, memory_used == the exact byte sum of those "
@@ -216,7 +216,7 @@ prop("C17", "slcheck",
 
 prop("C04", "slcheck",
      [dict(name="TestC04A", quick=2500, thorough=40000, env=G1),
-      dict(name="TestC04B", quick=250, thorough=4000, env={"GOMAXPROCS": "2"})],
+      dict(name="TestC04B", pkg="conccheck", quick=250, thorough=4000, env={"GOMAXPROCS": "2"})],
      rule="Layer A (skiplist + access barrier + guard allocator in trap mode, fully controlled): 2-4 threads play writer (Insert2 with drawn heights; delete = lookup + "
           "DeleteNode2 + FlushSession-on-success under one token; 1-3 contended keys), collector (unlink a chained list of nodes, then flush the list) and reader (iterator "
           "with refresh interval 0-3, Seek, Pause/Resume); schedule drawn. Oracle: no access to a freed block (page fault mapped to the block and its alloc/free ops), no "
